@@ -535,3 +535,11 @@ fn parse_postgres_interval(s: &str) -> Result<OwnedValue> {
 
     Ok(OwnedValue::Interval(micros, days, months))
 }
+
+/// Verification-only re-exports of the private calendar helpers (off unless the feature is enabled).
+#[cfg(feature = "kahflane_turdb_verif")]
+pub mod verif_hooks {
+    pub fn is_leap_year(year: i32) -> bool { super::is_leap_year(year) }
+    pub fn days_in_month(year: i32, month: u32) -> u32 { super::days_in_month(year, month) }
+    pub fn date_to_days_since_epoch(year: i32, month: u32, day: u32) -> i32 { super::date_to_days_since_epoch(year, month, day) }
+}
